@@ -513,12 +513,11 @@ theorem Grow.appBindReq (e : EP) (req : Nat) (bt : BindType) (host : Bytes) (por
   split
   · exact Grow.refl e
   · rename_i fid rng' fb' hd
-    have s : Grow e { e with rng := rng', fallback := fb', flows := insert e.flows fid (.bindRequested req) } :=
-      (Grow.insertPending e fid (.bindRequested req) (by intro i hc; cases hc)).trans (Grow.same rfl rfl)
-    simp only
     split
-    · exact s
-    · exact s.trans (Grow.enqFrame _ _)
+    · exact Grow.same rfl rfl
+    · have s : Grow e { e with rng := rng', fallback := fb', flows := insert e.flows fid (.bindRequested req) } :=
+        (Grow.insertPending e fid (.bindRequested req) (by intro i hc; cases hc)).trans (Grow.same rfl rfl)
+      exact s.trans (Grow.enqFrame _ _)
 
 theorem Grow.appBindNext (e : EP) : Grow e (appBindNext e).1 := by
   unfold Mux.appBindNext
